@@ -29,12 +29,17 @@ type c19Params struct {
 	Plan    []simnet.DFault `json:"plan"`
 	Lat0    bool            `json:"lat0,omitempty"` // zero network latency: both ends' timers expire at the same instant, the seed picks the order
 	K       int             `json:"k"` // number of faults to draw when Plan is nil
+	// InitMs / MaxMs: configured initial and maximum retransmission timeout (0: defaults, 1 s doubling without
+	// a cap that matters here). With them the time allowed is the sum of the first k values of the configured
+	// schedule min(initial*2^i, maximum).
+	InitMs int `json:"init_ms,omitempty"`
+	MaxMs  int `json:"max_ms,omitempty"`
 }
 
 func (c19) ID() string    { return "C19" }
 func (c19) Level() string { return "fault_enumeration" }
 func (c19) Rule() string {
-	return "real DTLCP client and server under virtual time on a network that applies a plan of at most k faults to the datagrams of the handshake and is reliable afterwards. Fault kinds per datagram: drop, duplicate, short delay (overtaken by the next datagram), long delay (past the retransmission timeout). k=0 (control: no timer may expire), all k=1 plans, all k=2 plans over the datagrams of the fault-free handshake, seeded k=3 plans (thorough), for full and resumed handshakes, suites, with client authentication; the schedule (including the order of simultaneous timer expiries) comes from the seed. Oracle: both endpoints complete within initial_timeout*(2^k-1) plus slack of virtual time, agree on all negotiated parameters, and an echo in both directions works. distinct = distinct (mode, plan); non-trivial = every planned fault hit a datagram"
+	return "real DTLCP client and server under virtual time on a network that applies a plan of at most k faults to the datagrams of the handshake and is reliable afterwards. Fault kinds per datagram: drop, duplicate, short delay (overtaken by the next datagram), long delay (past the retransmission timeout). k=0 (control: no timer may expire), all k=1 plans, all k=2 plans over the datagrams of the fault-free handshake, seeded k=3 plans (thorough), for full and resumed handshakes, suites, with client authentication; the schedule (including the order of simultaneous timer expiries) comes from the seed. Additionally, with configured timers whose maximum is not initial*2^n (1 s..1.5 s, 0.4 s..1 s, 0.6 s..0.6 s), the same flight lost two and three times in a row. Oracle: both endpoints complete within the sum of the first k values of the retransmission schedule (initial timeout doubling up to the configured maximum) plus slack of virtual time, agree on all negotiated parameters, and an echo in both directions works. distinct = distinct (mode, plan); non-trivial = every planned fault hit a datagram"
 }
 func (c19) Components() (real, stub []string) {
 	return []string{"dtlcp client+server (instrumented): flights, retransmission, back-off, dwell, replay window"},
@@ -106,6 +111,19 @@ func c19List(tier string) []c19Params {
 					out = append(out, c19Params{Suite: m.suite, Auth: m.auth, Resumed: resumed, Plan: []simnet.DFault{c19Fault(s.dir, s.name, simnet.FDrop), c19Fault(s.dir, second, simnet.FDrop)}})
 					for rep := 0; rep < 2; rep++ {
 						out = append(out, c19Params{Suite: m.suite, Auth: m.auth, Resumed: resumed, Lat0: true, Plan: []simnet.DFault{c19Fault(s.dir, s.name, simnet.FDrop)}})
+					}
+				}
+				// configured timers whose maximum is not the initial value times a power of two: the same flight
+				// lost two and three times in a row
+				for _, tm := range [][2]int{{1000, 1500}, {400, 1000}, {600, 600}} {
+					for _, s := range slots {
+						var plan []simnet.DFault
+						for rep := 1; rep <= 3; rep++ {
+							plan = append(plan, c19Fault(s.dir, strings.Replace(s.name, "#1", fmt.Sprintf("#%d", rep), 1), simnet.FDrop))
+							if rep >= 2 {
+								out = append(out, c19Params{Suite: m.suite, Auth: m.auth, Resumed: resumed, InitMs: tm[0], MaxMs: tm[1], Plan: append([]simnet.DFault(nil), plan...)})
+							}
+						}
 					}
 				}
 				for i := 0; i < len(slots); i++ {
@@ -246,6 +264,7 @@ func c19RunPlan(c *Case, src *vs.Src, p *c19Params, plan []simnet.DFault, r *Res
 	if p.Auth {
 		sc.Auth = 4
 	}
+	cc.InitRTOms, cc.MaxRTOms, sc.InitRTOms, sc.MaxRTOms = p.InitMs, p.MaxMs, p.InitMs, p.MaxMs
 	ccache, scache := dtlcp.NewLRUSessionCache(4), dtlcp.NewLRUSessionCache(4)
 	res := &c19Out{}
 	conns := 1
@@ -285,12 +304,27 @@ func c19RunPlan(c *Case, src *vs.Src, p *c19Params, plan []simnet.DFault, r *Res
 	res.desc = c19Describe(res.pair.Net, plan)
 	k := res.fired
 	bound := time.Duration((1<<uint(k))-1)*time.Second + 1500*time.Millisecond
+	if p.InitMs > 0 {
+		// the configured schedule: initial timeout doubling up to the configured maximum; these plans only lose
+		// datagrams, so little slack is needed
+		bound = 300 * time.Millisecond
+		t := time.Duration(p.InitMs) * time.Millisecond
+		for i := 0; i < k; i++ {
+			bound += t
+			if t *= 2; t > time.Duration(p.MaxMs)*time.Millisecond {
+				t = time.Duration(p.MaxMs) * time.Millisecond
+			}
+		}
+	}
 	o := res.o
 	res.detail = fmt.Sprintf("faults %v (fired %d of %d): run %s, client err=%v done at %v, server err=%v done at %v, read-deadline expiries %d, datagrams c2s=%d s2c=%d, unfinished %v", res.desc, k, len(plan), res.reason, o.CErr, o.CDone, o.SErr, o.SDone, res.w.K.Timeouts, res.pair.Net.NSent[0], res.pair.Net.NSent[1], unf)
 	switch {
 	case o.CEnded && o.SEnded && o.CErr == nil && o.SErr == nil:
 		if o.CDone > bound || o.SDone > bound {
 			res.class = "too-slow"
+			if p.InitMs > 0 {
+				res.class = fmt.Sprintf("too-slow(rto=%d..%d)", p.InitMs, p.MaxMs)
+			}
 			res.detail = fmt.Sprintf("completed later than %v allowed for %d faults; ", bound, k) + res.detail
 		} else if d := o.CheckAgreement(); d != "" {
 			res.class, res.detail = "disagree", d+"; "+res.detail
@@ -337,7 +371,7 @@ func (c19) Run(c *Case, src *vs.Src) *Result {
 	}
 	sigp := "C19 " + mode
 	res := c19RunPlan(c, src, p, p.Plan, r, sigp)
-	r.Key = hashKey(p.Suite, p.Auth, p.Resumed, planSig(p.Plan))
+	r.Key = hashKey(p.Suite, p.Auth, p.Resumed, p.InitMs, p.MaxMs, planSig(p.Plan))
 	if res.setup != "" {
 		r.Violate("setup", sigp+" setup-failed", "%s", res.setup)
 		return r
